@@ -34,48 +34,52 @@ _SKIP = {"parent", "source", "namespace_element_sets",
 
 
 def canon(o, _depth=0):
-    """Nested tuples describing every attribute of a metamodel object (parent/source excluded).
-    Generic over vars(): it knows nothing about the JSON mapping."""
+    """A string describing every attribute of a metamodel object (parent/source excluded), equal
+    for two objects iff they agree in every attribute.  Generic over vars(): it knows nothing
+    about the JSON mapping.  Unordered containers are sorted by the canonical strings."""
     from basyx.aas import model
     from dateutil.relativedelta import relativedelta
     if _depth > 60:
         raise RecursionError("canon: too deep")
     d = _depth + 1
-    if isinstance(o, str) and o.startswith("generated_submodel_list_hack_"):
-        return ("str", "<generated idShort of a list item>")
-    if o is None or isinstance(o, (bool, int, float, str, bytes)):
-        return (type(o).__name__, o)
+    if isinstance(o, str):
+        if o.startswith("generated_submodel_list_hack_"):
+            return "s'<generated idShort of a list item>'"
+        return "s" + repr(o)
+    if o is None or isinstance(o, (bool, int, float, bytes)):
+        return type(o).__name__[0] + repr(o)
     if isinstance(o, bytearray):
-        return ("bytes", bytes(o))
+        return "b" + repr(bytes(o))
     if isinstance(o, enum.Enum):
-        return ("enum", type(o).__name__, o.name)
+        return "E{}.{}".format(type(o).__name__, o.name)
     if isinstance(o, type):
-        return ("type", o.__name__)
+        return "T" + o.__name__
     if isinstance(o, (datetime.datetime, datetime.date, datetime.time, datetime.timedelta, decimal.Decimal,
                       relativedelta)):
-        return (type(o).__name__, repr(o))
+        return "V" + repr(o)
     if isinstance(o, model.OrderedNamespaceSet):
-        return ("onss", tuple(canon(x, d) for x in o))
+        return "O[" + ",".join(canon(x, d) for x in o) + "]"
     if isinstance(o, model.NamespaceSet):
-        return ("nss", tuple(sorted((canon(x, d) for x in o), key=repr)))
+        return "N{" + ",".join(sorted(canon(x, d) for x in o)) + "}"
     if isinstance(o, dict):
-        return ("dict", tuple(sorted(((canon(k, d), canon(v, d)) for k, v in o.items()), key=repr)))
+        return "D{" + ",".join(sorted(canon(k, d) + ":" + canon(v, d) for k, v in o.items())) + "}"
     if isinstance(o, (set, frozenset)):
-        return ("set", tuple(sorted((canon(x, d) for x in o), key=repr)))
+        return "S{" + ",".join(sorted(canon(x, d) for x in o)) + "}"
     if isinstance(o, (list, tuple)) or type(o).__name__ == "ConstrainedList":
-        return ("seq", tuple(canon(x, d) for x in o))
+        return "L[" + ",".join(canon(x, d) for x in o) + "]"
     if isinstance(o, model.LangStringSet):
-        return ("lss", type(o).__name__, tuple(sorted((k, v) for k, v in o.items())))
+        return "M" + type(o).__name__ + repr(sorted((k, v) for k, v in o.items()))
     if hasattr(o, "__dict__"):
         items = []
         for k, v in sorted(vars(o).items()):
-            if k in _SKIP or k.lstrip("_") in _SKIP:
+            k2 = k.lstrip("_")
+            if k2 in _SKIP:
                 continue
-            items.append((k.lstrip("_"), canon(v, d)))
-        return ("obj", type(o).__name__, tuple(items))
+            items.append(k2 + "=" + canon(v, d))
+        return type(o).__name__ + "(" + ",".join(items) + ")"
     if hasattr(o, "__slots__"):
-        return ("obj", type(o).__name__, tuple((k, canon(getattr(o, k), d)) for k in o.__slots__))
-    return ("repr", type(o).__name__, repr(o))
+        return type(o).__name__ + "(" + ",".join(k + "=" + canon(getattr(o, k), d) for k in o.__slots__) + ")"
+    return "R" + type(o).__name__ + repr(o)
 
 
 # ---------------------------------------------------------------- payloads
